@@ -49,6 +49,8 @@ NLPick(seed, n) == LET r == Hh(seed, 3, 5) % 6 IN
                    IF r = 0 THEN NLAll(n) ELSE IF r = 1 THEN NLRing(n)
                    ELSE IF r = 2 THEN NLRevVar(n) ELSE NLRnd(seed, n)
 
+KeyOfField(e) == SumSeq([i \in 1..Len(e) |-> SumSeq([k \in 1..Len(e[i]) |-> (e[i][k] + 5) * (3 * i + k)])])
+
 \* ---- cells (odd diagonal entries: integer positions never sit on a half-cell tie)
 Tri2(a, t, b) == << <<a, 0>>, <<t, b>> >>
 Tri3(a, b, cc, xy, xz, yz) == << <<a, 0, 0>>, <<xy, b, 0>>, <<xz, yz, cc>> >>
@@ -66,20 +68,26 @@ NSeeds == IF Model = "prq"     THEN (IF Thorough THEN 6000 ELSE 900)
           ELSE (IF Thorough THEN 1500 ELSE 120)
 
 \* --- prq
+\* row order of the neighbour file: a permutation of the ids (identity for half of the cases)
+IdOrder(n)        == [k \in 1..n |-> k]
+RndOrder(seed, n) == IF Hh(seed, 8, 8) % 2 = 0 THEN IdOrder(n) ELSE PermByKey(LAMBDA i : Hh(seed, i, 55) % 512, n)
+ExhOrder(e)       == LET k == KeyOfField(e) % 3 IN
+                     IF k = 0 THEN IdOrder(Len(e)) ELSE IF k = 1 THEN RevSeq(IdOrder(Len(e)))
+                     ELSE [i \in 1..Len(e) |-> (i % Len(e)) + 1]
 PrqExh ==
-  { [id |-> 0, d |-> 2, S |-> 1, e |-> e, nl |-> NLAll(2)] :
+  { [id |-> 0, d |-> 2, S |-> 1, e |-> e, nl |-> NLAll(2), order |-> ExhOrder(e)] :
        e \in [1..2 -> [1..2 -> (0 - 2)..2]] }
   \cup
-  { [id |-> 0, d |-> 2, S |-> 1, e |-> e, nl |-> nl] :
+  { [id |-> 0, d |-> 2, S |-> 1, e |-> e, nl |-> nl, order |-> ExhOrder(e)] :
        e \in [1..3 -> [1..2 -> (0 - 1)..1]], nl \in NLFam(3) }
   \cup (IF Thorough THEN
-  { [id |-> 0, d |-> 3, S |-> 1, e |-> e, nl |-> nl] :
+  { [id |-> 0, d |-> 3, S |-> 1, e |-> e, nl |-> nl, order |-> ExhOrder(e)] :
        e \in [1..3 -> [1..3 -> (0 - 1)..1]], nl \in {NLRing(3), NLRevVar(3)} } ELSE {})
 PrqRnd ==
   { LET d == 2 + (seed % 2)
         n == 3 + (Hh(seed, 1, 1) % 3)
     IN  [id |-> seed, d |-> d, S |-> Pick(seed, 2, <<1, 2, 10>>),
-         e |-> RndField(seed, n, d, 3), nl |-> NLPick(seed, n)] : seed \in 1..NSeeds }
+         e |-> RndField(seed, n, d, 3), nl |-> NLPick(seed, n), order |-> RndOrder(seed, n)] : seed \in 1..NSeeds }
 PrqScope == {x \in PrqExh \cup PrqRnd : PRDefined(x.e)}
 
 \* --- divcurl
@@ -97,17 +105,18 @@ DcRnd ==
         ppp == MaskBits(Hh(seed, 4, 4), d)
         pos == [i \in 1..n |-> [k \in 1..d |-> Rnd(seed, 40 + i, k, 0 - 6, 14)]]
     IN  [id |-> seed, d |-> d, H |-> H, ppp |-> ppp, S |-> Pick(seed, 5, <<1, 2, 4>>), SU |-> Pick(seed, 6, <<1, 2>>),
-         pos |-> pos, u |-> RndField(seed, n, d, 3), nl |-> NLPick(seed, n), A |-> << >>] : seed \in 1..NSeeds }
+         pos |-> pos, u |-> RndField(seed, n, d, 3), nl |-> NLPick(seed, n), A |-> << >>, order |-> RndOrder(seed, n)] : seed \in 1..NSeeds }
 \* linear fields u = A r, open boundaries
 DcLinShell2 ==
   { LET pos == ShellPos(2, a, <<2, 0 - 1>>) IN
     [id |-> 0, d |-> 2, H |-> Tri2(7, 0, 7), ppp |-> <<0, 0>>, S |-> 1, SU |-> 1, pos |-> pos,
-     u |-> LinearField(A, pos), nl |-> ShellNL(2), A |-> A] :
+     u |-> LinearField(A, pos), nl |-> ShellNL(2), A |-> A,
+     order |-> (IF (A[1][1] + A[2][2] + a) % 2 = 0 THEN IdOrder(5) ELSE RevSeq(IdOrder(5)))] :
       A \in [1..2 -> [1..2 -> (0 - 1)..1]], a \in {1, 2} }
 DcLinShell3 ==
   { LET A == RndMat(seed, 3, 2)  pos == ShellPos(3, 1 + (seed % 2), <<1, 0 - 2, 3>>) IN
     [id |-> seed, d |-> 3, H |-> Tri3(9, 9, 9, 0, 0, 0), ppp |-> <<0, 0, 0>>, S |-> 1, SU |-> 1, pos |-> pos,
-     u |-> LinearField(A, pos), nl |-> ShellNL(3), A |-> A] : seed \in 1..(IF Thorough THEN 1500 ELSE 150) }
+     u |-> LinearField(A, pos), nl |-> ShellNL(3), A |-> A, order |-> RndOrder(seed, 7)] : seed \in 1..(IF Thorough THEN 1500 ELSE 150) }
 DcLinRnd ==
   { LET d == 2 + (seed % 2)
         n == 3 + (Hh(seed, 1, 1) % 3)
@@ -115,19 +124,22 @@ DcLinRnd ==
         pos == [i \in 1..n |-> [k \in 1..d |-> Rnd(seed, 40 + i, k, 0 - 4, 4)]]
     IN  [id |-> seed, d |-> d, H |-> (IF d = 2 THEN Tri2(9, 2, 7) ELSE Tri3(9, 7, 5, 0 - 4, 2, 0 - 2)),
          ppp |-> Zero(d), S |-> Pick(seed, 5, <<1, 2>>), SU |-> 1, pos |-> pos,
-         u |-> LinearField(A, pos), nl |-> NLPick(seed, n), A |-> A] : seed \in 1..(IF Thorough THEN 1500 ELSE 150) }
+         u |-> LinearField(A, pos), nl |-> NLPick(seed, n), A |-> A, order |-> RndOrder(seed, n)] : seed \in 1..(IF Thorough THEN 1500 ELSE 150) }
 DcScope == DcRnd \cup DcLinShell2 \cup DcLinShell3 \cup DcLinRnd
 
-\* --- vib
+\* --- vib (frequency entries of either sign: all positive, all negative, mixed)
+OmSign(seed, l) == LET k == Hh(seed, 5, 5) % 4 IN
+                   IF k = 0 THEN 1 ELSE IF k = 1 THEN 0 - 1 ELSE 1 - 2 * (Hh(seed, 61, l) % 2)
 VibScope ==
   { LET d  == 2 + (seed % 2)
         n  == 1 + (Hh(seed, 1, 1) % 4)
         nm == Pick(seed, 2, << 1, Max2(1, d * n - d), d * n >>)
     IN  [id |-> seed, d |-> d, n |-> n, S |-> Pick(seed, 3, <<1, 2, 5>>), SO |-> Pick(seed, 4, <<1, 2>>),
-         om |-> [l \in 1..nm |-> Rnd(seed, 60, l, 1, 4)],
+         om |-> [l \in 1..nm |-> OmSign(seed, l) * Rnd(seed, 60, l, 1, 4)],
          ev |-> [r \in 1..(d * n) |-> [l \in 1..nm |-> Rnd(seed, 70 + r, l, 0 - 3, 3)]]] : seed \in 1..NSeeds }
 
-\* --- decomp (boxes with unequal edge lengths, quarter-box lattice positions)
+\* --- decomp (boxes with unequal edge lengths, quarter-box lattice positions m L / 4 with m in -4..7:
+\* particles inside the box, in the neighbouring images and on the faces)
 Boxes2 == << <<4, 8>>, <<3, 5>>, <<6, 4>>, <<5, 5>>, <<8, 2>> >>
 Boxes3 == << <<4, 6, 8>>, <<4, 4, 8>>, <<8, 4, 6>>, <<6, 6, 6>>, <<2, 4, 8>> >>
 DecompScope ==
@@ -135,7 +147,7 @@ DecompScope ==
         n == 1 + (Hh(seed, 1, 1) % (IF d = 2 THEN 5 ELSE 4))
     IN  [id |-> seed, d |-> d, L |-> (IF d = 2 THEN Pick(seed, 2, Boxes2) ELSE Pick(seed, 2, Boxes3)),
          S |-> Pick(seed, 3, <<1, 2>>),
-         m |-> [i \in 1..n |-> [k \in 1..d |-> Rnd(seed, 80 + i, k, 0, 3)]],
+         m |-> [i \in 1..n |-> [k \in 1..d |-> Rnd(seed, 80 + i, k, 0 - 4, 7)]],     \* unwrapped: also outside the box
          e |-> RndField(seed, n, d, IF d = 2 THEN 3 ELSE 2)] : seed \in 1..NSeeds }
 
 \* --- corr
@@ -151,7 +163,7 @@ CorrScope ==
          S |-> Pick(seed, 3, <<1, 2>>), ts |-> ts, dtn |-> Pick(seed, 5, <<1, 1, 3>>), dtd |-> Pick(seed, 5, <<500, 1, 4>>),
          qs |-> (IF d = 2 THEN CorrQs2 ELSE CorrQs3),
          fr |-> [f \in 1..Len(ts) |->
-                   [m |-> [i \in 1..n |-> [k \in 1..d |-> Rnd(seed, 100 * f + i, k, 0, 3)]],
+                   [m |-> [i \in 1..n |-> [k \in 1..d |-> Rnd(seed, 100 * f + i, k, 0 - 4, 7)]],
                     e |-> RndField(seed + 17 * f, n, d, 2)]]] : seed \in 1..NSeeds }
 
 Scope == IF Model = "prq" THEN PrqScope
@@ -161,7 +173,6 @@ Scope == IF Model = "prq" THEN PrqScope
          ELSE CorrScope
 
 \* shard key: a cheap integer function of the input
-KeyOfField(e) == SumSeq([i \in 1..Len(e) |-> SumSeq([k \in 1..Len(e[i]) |-> (e[i][k] + 5) * (3 * i + k)])])
 Key(x) == x.id + (IF Model = "prq" THEN KeyOfField(x.e) + Len(x.nl[1])
                   ELSE IF Model = "divcurl" THEN KeyOfField(x.u) + x.pos[2][1]
                   ELSE 0)
@@ -194,6 +205,10 @@ InvDivCurlShift     == IsM("divcurl") =>
 
 InvVibSumRule       == IsM("vib") => VibSumRule(c.ev, c.om, c.d, c.n, c.S, c.SO)
 InvVibFreqScaling   == IsM("vib") => VibFreqScaling(c.ev, c.om, c.d, c.n, c.S, c.SO)
+InvVibSignInvariant == IsM("vib") => VibSignInvariant(c.ev, c.om, c.d, c.n, c.S, c.SO)
+InvVibIsLiteral     == IsM("vib") => VibIsLiteral(c.ev, c.om, c.d, c.n, c.S, c.SO)
+\* the row order of the neighbour file is not part of the input
+InvRowOrder         == (IsM("prq") \/ IsM("divcurl")) => RowOrderIrrelevant(c.nl, c.order)
 
 DQs == AllQ(c.d, 2)
 InvLParallelQ   == IsM("decomp") => \A x \in 1..Len(DQs) : LongitudinalParallelToQ(DQs[x], c.L, GField(DQs[x], c.m, c.e))
@@ -222,7 +237,7 @@ GTerm(g, den) == Cplx(Q(g[1], den), Q(g[2], den))      \* Gaussian rational as a
 RootN(n, S) == Mul2(Sqrt(I(n)), I(S))                   \* sqrt(N) * S
 
 CasePrq ==
-  [ m |-> "prq", id |-> c.id, d |-> c.d, S |-> c.S, e |-> c.e, nl |-> c.nl,
+  [ m |-> "prq", id |-> c.id, d |-> c.d, S |-> c.S, e |-> c.e, nl |-> c.nl, rows |-> NlRows(c.nl, c.order),
     pr    |-> QR(PR(c.e)),
     align |-> [i \in 1..Len(c.e) |-> QR(Align(c.e, c.nl, i, c.S))],
     pq    |-> IF PQDefined(c.e, c.nl) THEN QR(PQ(c.e, c.nl)) ELSE "undef" ]
@@ -236,7 +251,7 @@ DcRow(i) ==
 CaseDc ==
   LET rows == [i \in 1..Len(c.pos) |-> DcRow(i)] IN
   [ m |-> "divcurl", id |-> c.id, d |-> c.d, H |-> c.H, ppp |-> c.ppp, S |-> c.S, SU |-> c.SU,
-    pos |-> c.pos, u |-> c.u, nl |-> c.nl, A |-> c.A,
+    pos |-> c.pos, u |-> c.u, nl |-> c.nl, rows |-> NlRows(c.nl, c.order), A |-> c.A,
     div  |-> [i \in 1..Len(c.pos) |-> rows[i].div],
     curl |-> IF c.d = 3 THEN [i \in 1..Len(c.pos) |-> rows[i].curl] ELSE << >> ]
 CaseVib ==
